@@ -102,6 +102,10 @@ type NGSetupChoice struct {
 	AMFPointer       int    `json:"amf_pointer"`
 	ExtraGUAMIs      int    `json:"extra_guamis"`
 	ExtraSlices      int    `json:"extra_slices"`
+	// the AMF serves further PLMNs: so many PLMN Support Items before / after the item of the gNB's PLMN
+	// (TS 38.413 gives the order of the list no meaning)
+	PLMNsBefore int `json:"plmns_before,omitempty"`
+	PLMNsAfter  int `json:"plmns_after,omitempty"`
 	BackupAMFName    string `json:"backup_amf_name,omitempty"` // optional field of ServedGUAMIItem
 }
 
